@@ -309,6 +309,67 @@ def run(ck):
                 {"script": lines, "observed": [l[:80] for l in o["out"] if l[:2] in ("cb", "ev")][-10:], "harness": "h_cs104c"})
         if deliv:
             ck.nontriv((sid, "client-trace"))
+    # ---- client role: the application closes a connection while an APDU of the peer is only partly received and connects the same
+    #      object again: the new connection starts with an empty reassembly buffer (nothing of the old fragment is delivered, the
+    #      connection stays open, its own frames are delivered)
+    rc_scripts, rcmeta = [], {}
+    for cut in (1, 2, 3, 7, 12, 15):
+        a1, a2 = plc(9), plc(10)
+        f1 = apci.i_frame(0, 0, a1)
+        pre = ["cfg k=12 w=8 t1=15 t2=10 t3=20", "connect", "startdt", "step", "rx " + apci.STARTDT_CON.hex(), "step", "rx " + f1[:min(cut, len(f1) - 1)].hex(), "step 2", "close", "step"]
+        post = ["connect", "startdt", "step", "rx " + apci.STARTDT_CON.hex(), "step", "rx " + apci.i_frame(0, 0, a2).hex(), "step 3", "rx " + apci.i_frame(1, 0, a1).hex(), "step 3"]
+        sid = "rc.%d" % cut
+        rc_scripts.append((sid, pre + post)); rcmeta[sid] = (cut, len(pre), [a2.hex(), a1.hex()])
+    rrc = runner.run_batch(hcli, rc_scripts)
+    ck.count("client_reconnect_scripts", len(rc_scripts))
+    for sid, lines in rc_scripts:
+        cut, npre, exp = rcmeta[sid]
+        ck.evaluations += 1
+        o = rrc.get(sid, dict(out=[], crash=None))
+        if o["crash"]:
+            ck.fail("input", "crash:%s:%s" % (o["crash"]["kind"], o["crash"]["site"]), "client aborted: %s at %s" % (o["crash"]["kind"], o["crash"]["site"]), {"script": lines, "stderr": o["crash"]["text"], "harness": "h_cs104c"})
+            continue
+        marks = [i for i, l in enumerate(o["out"]) if l == "."]
+        if len(marks) < len(lines):
+            continue
+        second = o["out"][marks[npre - 1] + 1: marks[len(lines) - 1] + 1]
+        deliv = [l.split()[2] for l in second if l.startswith("cb asdu")]
+        closed = any(l.startswith(("ev CLOSED", "ev FAILED")) for l in second)
+        if deliv != exp or closed:
+            ck.fail("input", "oracle:delivery:client-reconnect", "client: connection closed by the application with %d octets of an APDU received, the same object connected again: the new connection delivered %s closed=%s; its own stream holds 2 in-sequence I-frames" % (
+                cut, deliv, closed), {"script": lines, "observed": [l[:80] for l in second if l[:2] in ("cb", "ev", "tx")][-10:], "harness": "h_cs104c"})
+        ck.nontriv((sid, "client-reconnect"))
+    # ---- server role at trace level with counters started anywhere: in-sequence I-frames of a peer that acknowledges what the server
+    #      sent (N(R) = the server's send counter: 127, 128, 255, 16384, 32767, ...) are delivered, the connection stays open
+    sv_scripts, smeta = [], {}
+    for vs0 in (0, 126, 127, 128, 255, 256, 4096, 16383, 16384, 32766, 32767):
+        for vr0 in (0, 32766):
+            sid = "sv.%d.%d" % (vs0, vr0)
+            lines = ["cfg handlers=64 k=12 w=8 t1=15 t2=10 t3=20 lowq=20 highq=10", "start", "connect c0 10.1.1.1:1111", "tick",
+                     "poke c0 vs=%d vr=%d" % (vs0, vr0), "rx c0 " + apci.STARTDT_ACT.hex(), "tick"]
+            exp = []
+            for j in range(5):
+                if j in (1, 3):
+                    lines += ["enq " + apci.asdu(30, 3, 1, bytes([j, 0, 0, 0, 0])).hex(), "tick 2"]
+                lines += ["rxi c0 " + plc(j + 1).hex(), "tick 2"]
+                exp.append(plc(j + 1).hex())
+            sv_scripts.append((sid, lines)); smeta[sid] = (vs0, vr0, exp)
+    rsv = runner.run_batch(hsrv, sv_scripts)
+    ck.count("server_counter_scripts", len(sv_scripts))
+    for sid, lines in sv_scripts:
+        vs0, vr0, exp = smeta[sid]
+        ck.evaluations += 1
+        o = rsv.get(sid, dict(out=[], crash=None))
+        if o["crash"]:
+            ck.fail("input", "crash:%s:%s" % (o["crash"]["kind"], o["crash"]["site"]), "server aborted: %s at %s" % (o["crash"]["kind"], o["crash"]["site"]), {"script": lines, "stderr": o["crash"]["text"]})
+            continue
+        deliv = [l.split("asdu=")[1] for l in o["out"] if l.startswith("cb asdu c0")]
+        closed = any(l.startswith("ev c0 CLOSED") for l in o["out"])
+        if deliv != exp or closed:
+            ck.fail("input", "oracle:delivery:server-counters", "server (send counter %d, receive counter %d at STARTDT; 5 in-sequence I-frames of a peer acknowledging everything it received) delivered %d ASDUs closed=%s; reference: 5 delivered, open" % (
+                vs0, vr0, len(deliv), closed), {"script": lines, "observed": [l[:80] for l in o["out"] if l[:2] in ("cb", "ev")][-10:]})
+        if deliv:
+            ck.nontriv((sid, "server-counters"))
     for tag, d in by_stream.items():
         if len(d) > 1:
             ks = list(d.items())
